@@ -167,7 +167,34 @@ def probe(imgdir):
         p.wait()
 
 
-def observations(sc, name, steps, unit, max_images):
+def long_truncate_history():
+    """a log longer than two index intervals (128 records each) that is cut back across an index point, then extended:
+    the truncation clears index-area entries AND record bytes"""
+    steps, log, nid = [], [], 1
+
+    def obs():
+        return {"first": 1, "end": 1 + len(log), "floor": 1, "log": [dict(e) for e in log]}
+    for b in range(6):
+        es = []
+        for _ in range(50):
+            idx = len(log) + 1
+            e = {"index": idx, "term": 1, "id": nid, "sz": 1}
+            nid += 1
+            es.append(e)
+            log.append({"index": idx, "term": 1, "id": e["id"]})
+        steps.append({"op": "batch", "entries": es, "res": "ok", "obs": obs()})
+    for k, n_more in ((101, 1), (60, 1)):
+        del log[k - 1:]
+        steps.append({"op": "truncate", "k": k, "res": "ok", "obs": obs()})
+        for _ in range(n_more):
+            idx = len(log) + 1
+            log.append({"index": idx, "term": 2, "id": nid})
+            steps.append({"op": "append", "index": idx, "term": 2, "id": nid, "sz": 1, "res": "ok", "obs": obs()})
+            nid += 1
+    return steps
+
+
+def observations(sc, name, steps, unit, max_images, tail_only=0):
     lines, owner = script_of(steps, unit)
     ev, data = journal_run(sc, name, lines)
     member_ids = {s["id"] for s in steps if s["op"] == "members"}
@@ -183,6 +210,8 @@ def observations(sc, name, steps, unit, max_images):
         n_ack = max(0, len(acks) - 1)
         imgs.append((k, {p: bytes(b) for p, b in files.items() if crashimg.is_store_file(p)}, n_ack, last_ev))
     total = len(imgs)
+    if tail_only:
+        imgs = imgs[-tail_only:]        # (the long plain-append prefix of this history is covered by the others)
     if len(imgs) > max_images:
         # keep every image around acknowledgements thin out evenly elsewhere (thorough keeps all)
         step = len(imgs) / float(max_images)
@@ -275,6 +304,11 @@ def run(tier):
         all_obs.extend(obs)
         images_total += total
         mutations += nev
+    obs, total, nev, order = observations(sc, "long_truncate", long_truncate_history(), 128, 100000, tail_only=60)
+    order_leg(c, sc, "long_truncate", order)
+    all_obs.extend(obs)
+    images_total += total
+    mutations += nev
     of = vlib.write_ndjson(os.path.join(sc, "obs.ndjson"), all_obs)
     failed = tlc_chk(of, "c04_chk")
     c.add_mc({"generated": 1, "distinct": 1, "depth": 1, "wall_s": 0, "actions": {}, "cfg": "CHK_CrashStore.cfg", "module": "CrashStore.tla"})
